@@ -3,6 +3,8 @@ from props_common import BASE_TB
 PROP = {
     "modules": ["YorkieModel.Props.C01", "YorkieModel.Props.C01Text"],
     "engines": [
+        # integrated engine: real client SDK + real in-process server (memory DB), traffic captured at the HTTP transport
+        {"name": "srv", "args": ["orc=c01"], "quick": {"n": 480, "workers": 8}, "thorough": {"n": 12000, "workers": 14}},
         # oracle-only: replicas that edit before SetActor/Attach (known finding c01-pre-attach-edit)
         {"name": "crdtpre", "quick": {"n": 240, "workers": 4}, "thorough": {"n": 20000, "workers": 8}},
         {"name": "crdt", "quick": {"n": 2400, "workers": 8}, "thorough": {"n": 150000, "workers": 14}},
